@@ -184,6 +184,7 @@ func (lex *Lexer) Lex() *token.Token {
 
                 s := strings.Replace(string(lex.data[lex.ts:lex.te]), "_", "", -1)
                 _, err := strconv.ParseInt(s, base, 0)
+                lex.invalidOctal(base, err)
 
                 if err == nil {
                     lex.setTokenPosition(tkn); tok = token.T_LNUMBER; fbreak;
